@@ -50,12 +50,16 @@ func NewWriterLevel(w io.Writer, h *sam.Header, level, wc int) (*Writer, error) 
 	}
 
 	err = bw.writeHeader(h)
-	if err != nil {
-		return nil, err
+	if err == nil {
+		bw.bg.Flush()
+		err = bw.bg.Wait()
 	}
-	bw.bg.Flush()
-	err = bw.bg.Wait()
 	if err != nil {
+		if _, ok := w.(*bgzf.Writer); !ok {
+			// The caller gets no Writer to close, so release
+			// the goroutines of the bgzf.Writer made here.
+			bg.Close()
+		}
 		return nil, err
 	}
 	return bw, nil
